@@ -36,8 +36,10 @@ package extgrpc
 //@   ensures result1 == typeis(err, *withGrpcCode)
 //@   ensures result1 ==> typeis(result0, codes.Code) && result0.(codes.Code) == err.(*withGrpcCode).code
 
+//@ spec func grpcCodeOf(e error) codes.Code
 //@ func GetGrpcCode
 //@   props C07 C11 C20
+//@   defines grpcCodeOf(err)
 //@   ensures err == nil ==> result == codes.OK
 //@   ensures err != nil && !ifOk(err, closure("extgrpc.GetGrpcCode$1")) ==> result == codes.Unknown
 //@   ensures err != nil && ifOk(err, closure("extgrpc.GetGrpcCode$1")) ==> typeis(ifVal(err, closure("extgrpc.GetGrpcCode$1")), codes.Code) && result == ifVal(err, closure("extgrpc.GetGrpcCode$1")).(codes.Code)
